@@ -221,9 +221,37 @@ def windows_of(ctx, strategy_obj, strategy, p, G, Xarr, Yarr):
     return a, al, ar, bl, br
 
 
-def inputs(ctx, m, grid):
-    """x: symbolic strictly increasing (grid None) or a concrete rational grid; y symbolic."""
+TYPED_Y = [3, -1, 4, 1, 5, 9, 2, 6]
+
+
+def typed_configs(strategies, n=3):
+    """typed inputs: abscissae and/or values handed in as integer-typed arrays / lists of Python ints (the other
+    series stays symbolic).  The code converts with dtype=float; a dropped conversion truncates what is stored later."""
+    out = []
+    for i, s in enumerate(strategies):
+        p = {"alpha": "1"} if s in WINDOW else {}
+        out.append({"strategy": s, "m": 4, "n": n, "grid": ["0", "1", "3", "4"], "p": p, "typed": "int-x" if i % 2 else "int-x-list"})
+        out.append({"strategy": s, "m": 4, "n": n, "grid": ["0", "1", "3", "4"], "p": p, "typed": "int-y" if i % 2 == 0 else "int-y-list"})
+    return out
+
+
+def inputs(ctx, m, grid, typed=None):
+    """x: symbolic strictly increasing (grid None) or a concrete rational grid; y symbolic.
+    typed: 'int-x' / 'int-x-list' (grid of integers handed in as int64 array / list of ints),
+           'int-y' / 'int-y-list' (concrete integer values, x as given by grid)"""
+    if typed:
+        ctx.typed_inputs = True
+    if typed and typed.startswith("int-y"):
+        ints = TYPED_Y[:m]
+        ys = [Sym.lift(v) for v in ints] if ctx.symbolic else [float(v) for v in ints]
+        gx = [Fraction(g) for g in grid]
+        X = [Sym.lift(g) for g in gx] if ctx.symbolic else [float(g) for g in gx]
+        return cx(ctx, gx), (np.array(ints) if typed == "int-y" else list(ints)), X, ys
     ys = ctx.reals("y", m)
+    if typed and typed.startswith("int-x"):
+        gi = [int(Fraction(g)) for g in grid]
+        X = [Sym.lift(g) for g in gi] if ctx.symbolic else [float(g) for g in gi]
+        return (np.array(gi) if typed == "int-x" else list(gi)), arr(ctx, ys), X, ys
     if grid is None:
         xs = ctx.reals("x", m)
         increasing(ctx, xs)
